@@ -247,7 +247,11 @@ def stripPathPrefix (path pre : PathObj) : Except PErr (PathObj × PathObj × Pa
         | .ok path => match path.str with
           | .error e => .error e
           | .ok (s, path) =>
-            if startsWith s ps then .ok (PathObj.new (s.drop ps.length), path, pre)
+            if startsWith s ps then
+              -- fix 9c814d1: a remainder that starts with `[` gets its forward-slash back (without it the
+              -- remainder would be re-read in dot notation)
+              let rest := s.drop ps.length
+              .ok (PathObj.new (if rest.head? = some '[' then '/' :: rest else rest), path, pre)
             else .ok (path, path, pre)
 
 end Ypv
